@@ -1,6 +1,7 @@
 package main
 
 import (
+	"go/types"
 	"fmt"
 	"go/constant"
 	"go/token"
@@ -424,6 +425,81 @@ func init() {
 				}
 			}
 			c.Check(bad == "", fnKey(w)+" / no-roll-between-index-and-lines", idxCall.Pos(), "a file roll (%s) can happen after the index entry of a second was written and before its lines are: the entry lands in the old file's index while the lines open the new file", bad)
+		},
+	})
+}
+
+// droppedErrorReturns lists the returns of f whose error result is the constant nil although the return is dominated
+// by the fact `e != nil` for an error value e produced by a call.
+func droppedErrorReturns(f *ssa.Function) []*ssa.Return {
+	res := f.Signature.Results()
+	if res.Len() == 0 || !isErrorType(res.At(res.Len()-1).Type()) {
+		return nil
+	}
+	var out []*ssa.Return
+	for _, r := range returnsOf(f) {
+		last := r.Results[len(r.Results)-1]
+		if !isNilConst(last) {
+			continue
+		}
+		for _, ft := range condFacts(r.Block()) {
+			bo, ok := ft.Cond.(*ssa.BinOp)
+			if !ok || !((bo.Op == token.NEQ && ft.Truth) || (bo.Op == token.EQL && !ft.Truth)) {
+				continue
+			}
+			var e ssa.Value
+			if isNilConst(bo.Y) {
+				e = bo.X
+			} else if isNilConst(bo.X) {
+				e = bo.Y
+			}
+			if e == nil || !isErrorType(e.Type()) {
+				continue
+			}
+			switch x := e.(type) {
+			case *ssa.Call:
+				out = append(out, r)
+			case *ssa.Extract:
+				if _, isCall := x.Tuple.(*ssa.Call); isCall {
+					out = append(out, r)
+				}
+			}
+		}
+	}
+	return out
+}
+
+func isErrorType(t types.Type) bool {
+	n, ok := t.(*types.Named)
+	return ok && n.Obj().Pkg() == nil && n.Obj().Name() == "error"
+}
+
+func init() {
+	register(&Rule{
+		ID: "metriclog.write-errors-reported", Props: []string{"C17"}, Floor: 8,
+		Doc: "in the metric log writer no function that returns an error returns nil on a path on which a call has just reported an error (err != nil): a batch whose lines could not be written must not be acknowledged - Write would advance latestOpSec, keep the already written index entry, and the caller would believe the second is on disk",
+		Run: func(c *Ctx) {
+			n := 0
+			for _, f := range c.P.ModuleFuncs() {
+				if f.Pkg == nil || !strings.HasSuffix(f.Pkg.Pkg.Path(), mlPkg) || isTestOrExample(f) {
+					continue
+				}
+				if f.Signature.Recv() == nil || !strings.Contains(f.Signature.Recv().Type().String(), "DefaultMetricLogWriter") {
+					continue
+				}
+				res := f.Signature.Results()
+				if res.Len() == 0 || !isErrorType(res.At(res.Len()-1).Type()) {
+					continue
+				}
+				n++
+				bad := droppedErrorReturns(f)
+				pos := f.Pos()
+				if len(bad) > 0 {
+					pos = bad[0].Pos()
+				}
+				c.Check(len(bad) == 0, fnKey(f)+" / no-error-swallowed", pos, "%d return(s) answer nil although a call reported an error on that path", len(bad))
+			}
+			c.Stat("writer functions returning error", n)
 		},
 	})
 }
